@@ -176,8 +176,8 @@ type BlockHeader struct {
 }
 
 type Block struct {
-	BlockHeader
-	ChunkCerts []*ChunkCertificate `serialize:"true"`
+	BlockHeader `serialize:"true"`
+	ChunkCerts  []*ChunkCertificate `serialize:"true"`
 
 	blkID    ids.ID
 	blkBytes []byte
